@@ -350,7 +350,7 @@ class _NameSeq:
         self.i = 0
 
     def uuid4(self):
-        name = self.names[self.i] if self.i < len(self.names) else f"uX{self.i}"
+        name = self.names[self.i] if self.i < len(self.names) else f"u{self.i + 1}"
         self.i += 1
         return types.SimpleNamespace(hex=name)
 
@@ -398,7 +398,7 @@ class Replayer:
     """Executes labels of Dataset.tla behaviours against a real dataset directory."""
 
     def __init__(self, root: Path, fmt: str, compression: str = "", eps: int = 2, hashes=("sha256",),
-                 writer_names=("u1", "u2", "u3", "u4", "u5", "u6"), single_process: bool = True, md_table=None):
+                 writer_names=tuple(f"u{i}" for i in range(1, 33)), single_process: bool = True, md_table=None):
         self.root = Path(root)
         self.fmt = fmt
         self.compression = compression
@@ -421,11 +421,15 @@ class Replayer:
         self.problems: list[tuple[str, str]] = []  # (kind, description): behaviour the specification forbids
         import sedpack.io.dataset_writing as dw
         self._dw = dw
-        self._saved_uuid = dw.uuid
-        dw.uuid = self.names
+        # scripted writer-directory names; if the module no longer has the name `uuid` the replay simply runs with
+        # whatever names the code chooses (specification-state comparison then degrades to drift)
+        self._saved_uuid = getattr(dw, "uuid", None)
+        if self._saved_uuid is not None:
+            dw.uuid = self.names
 
     def close(self):
-        self._dw.uuid = self._saved_uuid
+        if self._saved_uuid is not None:
+            self._dw.uuid = self._saved_uuid
 
     # -- individual API steps
     def create(self):
@@ -614,7 +618,13 @@ class Replayer:
               "wlog": [{k: v for k, v in w.items() if k != "exc"} for w in self.wlog], "done": list(self.done),
               "checks": list(checks), "aborted": getattr(self, "aborted", 0)}
         if with_read:
-            st["readback"] = self.readback()
+            try:
+                st["readback"] = self.readback()
+            except Exception as exc:  # pylint: disable=broad-except
+                # the dataset cannot be read back after a completed session: a finding, not a harness failure
+                self.problems.append(("readback-raised", f"reading the dataset back raised {type(exc).__name__}: "
+                                      f"{str(exc)[:200]}"))
+                self.problems = list(dict.fromkeys(self.problems))
         return st, cfiles, cmem
 
     def readback(self) -> dict:
